@@ -185,6 +185,18 @@ func search(t *testing.T, sc *scen.Scenario) {
 		}
 		seed := kernel.Mix(*fSeed, sc.Name, run)
 		res := runOne(t, sc, seed, nil, *fDump)
+		if strings.Contains(res.Harness, "blocked goroutines remain") && len(res.Violations) == 0 {
+			// every oracle of the run was evaluated (the scenario body had returned) and a goroutine was still
+			// blocked when the bubble ended.  Teardown is the one place where real parallelism between goroutines
+			// decides something (who notices the reset connection first); the same seed is executed again, and only
+			// a leak that shows again counts as harness trouble.
+			for k := 0; k < 2 && res.Harness != ""; k++ {
+				res = runOne(t, sc, seed, nil, *fDump)
+			}
+			if res.Harness == "" {
+				sum.Probes["kernel.teardown_leak_not_reproduced_on_rerun"]++
+			}
+		}
 		if *fDump {
 			fmt.Printf("== run %d seed %d hash %s\n%s\n", run, seed, res.Hash, strings.Join(res.Log, "\n"))
 		}
